@@ -7,6 +7,7 @@ import (
 	"fmt"
 	"runtime"
 	"strings"
+	"time"
 )
 
 // ---- recording TB ----
@@ -430,4 +431,80 @@ func boolSliceGoString(sl []bool) string {
 		}
 	}
 	return s + "}"
+}
+
+func farDeadline() time.Time { return time.Now().Add(24 * time.Hour) }
+
+// outcomeProp is a property whose i-th invocation passes, skips or fails as the solver chooses.
+type outcomeProp struct {
+	calls   int
+	passes  int
+	skips   int
+	fails   int
+	after   int // invocations after the first failing one
+	firstOutcome int
+}
+
+func (o *outcomeProp) prop(t *T) {
+	o.calls++
+	if o.fails > 0 {
+		o.after++
+	}
+	out := 2
+	switch nondetU8("o" + itoa(o.calls)) {
+	case 0:
+		out = 0
+	case 1:
+		out = 1
+	}
+	if o.calls == 1 {
+		o.firstOutcome = out
+	}
+	switch out {
+	case 0:
+		o.passes++
+	case 1:
+		o.skips++
+		t.Skip("skip")
+	default:
+		o.fails++
+		t.Fatalf("fail")
+	}
+}
+
+func symOps(name string, k int, alphabet []uint8) []uint8 {
+	var ops []uint8
+	for i := 0; i < k; i++ {
+		op := nondetU8(name + ".op" + itoa(i))
+		assume(inAlphabet(op, alphabet))
+		ops = append(ops, op)
+	}
+	return ops
+}
+
+func freshT(t *T) bool {
+	return t.failed == "" && len(t.cleanups) == 0 && t.ctx == nil && t.cancelCtx == nil && !t.cleaning.Load()
+}
+
+// cTB is a TB without shared state: testing.T's Helper/Name/Logf/Log are goroutine-safe by contract.
+type cTB struct{ nilTB }
+
+func (cTB) Helper()             {}
+
+func (cTB) Name() string        { return "C14" }
+
+func (cTB) Logf(string, ...any) {}
+
+func (cTB) Log(...any)          {}
+
+func concProgs(name string, g, k int, alphabet []uint8) [][]uint8 {
+	progs := make([][]uint8, g)
+	for gi := 0; gi < g; gi++ {
+		for j := 0; j < k; j++ {
+			op := nondetU8(name + itoa(gi) + "." + itoa(j))
+			assume(inAlphabet(op, alphabet))
+			progs[gi] = append(progs[gi], op)
+		}
+	}
+	return progs
 }
